@@ -479,6 +479,13 @@ func c03PkgInfoProgram(rng *core.Rand, pkg string) (src string, extra map[string
 		w.WriteString("local SameName abc\nlocal SameName de\n5\next SameName abc\nabc?\nlocal SameWrap [ x\n[x[\next SameWrap n 4\nn4\n")
 	}
 	fo.WriteString(infoLocal.String() + "\n" + infoExt.String() + "\n")
+	// a foreign (variadic) function declared again, later, with another arity: from there on the
+	// later declaration is the one in force (small package_info blocks next to their use sites)
+	fo.WriteString("package_info _ =\n  let VarCat: string->string->string->string\n\nlet useCat3 () =\n  VarCat \"a\" \"b\" \"c\"\n\n")
+	fo.WriteString("package_info _ =\n  let VarCat: string->string->string\n\nlet useCat2 () =\n  VarCat \"x\" \"y\"\n\nlet useCatPiped () =\n  \"q\" |> VarCat \"p\"\n\n")
+	wrap.WriteString("func VarCat(parts ...string) string {\n\tfmt.Println(\"VarCat\", len(parts))\n\tr := \"\"\n\tfor i, p := range parts {\n\t\tif i > 0 {\n\t\t\tr += \"+\"\n\t\t}\n\t\tr += p\n\t}\n\treturn r\n}\n\n")
+	body.WriteString("  frt.Println (useCat3 ())\n  frt.Println (useCat2 ())\n  frt.Println (useCatPiped ())\n")
+	w.WriteString("VarCat 3\na+b+c\nVarCat 2\nx+y\nVarCat 2\np+q\n")
 	fo.WriteString("let Run () =\n" + body.String() + "  frt.Printf1 \"%d\\n\" (slice.Length [1])\n  frt.Println \"end\"\n")
 	w.WriteString("1\nend\n")
 	fixImports := func(src string) string {
